@@ -237,7 +237,20 @@ def origin_field_names(F, b, op, wide, depth=0):
     return names
 
 
+def wake_bounded(F, R):
+    """Senders parked by back-pressure / a full window are released per free slot (imports the C13.wake-count
+    rule): releasing more than cap - outstanding lets them write without re-checking the window."""
+    import c13, runner
+    for ver in ('v3', 'v5'):
+        rep = runner.Report('C13', 'quick')
+        c13.wake_count(F, rep, ver)
+        bad = [i for i in rep.items if not i['ok']]
+        R.ob('C05.gated', '%s|released-senders<=free-slots (C13.wake-count)' % ver, not bad,
+             'more parked senders can be released than there are free slots in the send window: %s' % '; '.join(i['key'] for i in bad)[:300])
+
+
 def run(F, R):
+    wake_bounded(F, R)
     for ver in ('v3', 'v5'):
         single_enqueue(F, R, ver)
         pubrec_keeps_slot(F, R, ver)
